@@ -98,10 +98,11 @@ Print Assumptions C14_mutex_exclusive.
 
 (* "each response going to the request that caused it" also needs every request to be relayed:
    under every schedule no request is failed for lack of readiness of the upstream connection
-   (Client::send_request awaits SendRequest::ready() before send_request) *)
+   (Client::send_request awaits SendRequest::ready() before send_request: [code_waits_ready]
+   is regenerated from its source, so removing the wait breaks this theorem) *)
 Theorem C14_every_request_relayed :
-  forall (sched : list actor) (t : nat), pcs (crun true true cinit sched) t <> PFailed.
-Proof. exact no_spurious_failure. Qed.
+  forall (sched : list actor) (t : nat), pcs (crun true code_waits_ready cinit sched) t <> PFailed.
+Proof. exact code_no_spurious_failure. Qed.
 Print Assumptions C14_every_request_relayed.
 
 (* FINDING F12, repaired by fix commit cdcae0b (known_findings.d/C14.json, status fixed).  The
